@@ -52,12 +52,17 @@ theorem RS.get_none {ss sp} (h : RS ss sp) {r : Nat} (hm : ss[r]? = none) : sp.s
   | none => rfl
   | some a => rw [ha] at hr; simp [RS1] at hr
 
-theorem RS.set {ss sp} (h : RS ss sp) (r : Nat) (m : IDSet.Set) (a : List Nat) (hma : m = canon a) :
-    RS (ss.set r m) { sp with sets := sp.sets.set r a } := by
-  refine ⟨by simp [h.len], ?_, h.small⟩
+theorem RS.set {ss sp} (h : RS ss sp) (r : Nat) (m : IDSet.Set) (a : List Nat) (hma : m = canon a)
+    (sp' : SSpec) (hs : sp'.sets = sp.sets.set r a) (hb : sp'.big = false) :
+    RS (ss.set r m) sp' := by
+  refine ⟨by simp [h.len], ?_, hb⟩
+  rw [hs]
   apply rel_set RS1 _ _ ss sp.sets h.rel r m a hma
   · intro x; simp [RS1]
   · intro y; simp [RS1]
+
+theorem RS.same {ss sp} (h : RS ss sp) (sp' : SSpec) (hs : sp'.sets = sp.sets) (hb : sp'.big = false) :
+    RS ss sp' := ⟨h.len, by rw [hs]; exact h.rel, hb⟩
 
 theorem anyBig_false {ids : List Nat} (h : ∀ id ∈ ids, id < 2 ^ 32) : ids.any big = false := by
   rw [List.any_eq_false]
@@ -136,8 +141,7 @@ theorem stepS_sim (ss sp) (op : SOp) (hR : RS ss sp) (hwf : SOp.WF op) :
     by_cases hr : r < nReg
     · simp only [hr, if_true, expect]
       refine ⟨by simp, ?_⟩
-      have := hR.set r (addMany [] ids) ids ?_
-      · simpa [hb] using this
+      refine hR.set r (addMany [] ids) ids ?_ _ rfl (by simp)
       · apply eq_canon _ _ (addMany_sorted _ _ (by simp))
         intro y
         rw [mem_addMany]
@@ -147,29 +151,27 @@ theorem stepS_sim (ss sp) (op : SOp) (hR : RS ss sp) (hwf : SOp.WF op) :
           · rw [norm_small (hwf id h1)]; exact h1
         · intro h; exact Or.inr ⟨y, h, (norm_small (hwf y h)).symm⟩
     · simp only [hr, if_false]
-      exact ⟨trivial, by simpa [hb] using hR⟩
+      exact ⟨trivial, hR.same _ rfl (by simp)⟩
   | add r id =>
     simp only [SOp.WF] at hwf
     simp only [stepS, checkS, updS, hb, big_false hwf, Bool.or_false]
     cases hs : ss[r]? with
-    | none => simp only [hR.get_none hs]; exact ⟨trivial, by simpa [hb] using hR⟩
+    | none => simp only [hR.get_none hs]; exact ⟨trivial, hR.same _ rfl (by simp)⟩
     | some m =>
       obtain ⟨a, ha, hma, hlt⟩ := hR.get_some hs
       simp only [ha, hlt, if_true, expect]
       refine ⟨by simp, ?_⟩
-      have := hR.set r (IDSet.add m id) (id :: a) (by rw [canon_cons, hma, IDSet.add, norm_small hwf])
-      simpa [hb] using this
+      exact hR.set r (IDSet.add m id) (id :: a) (by rw [canon_cons, hma, IDSet.add, norm_small hwf]) _ rfl (by simp)
   | addMany r ids =>
     simp only [SOp.WF] at hwf
     simp only [stepS, checkS, updS, hb, anyBig_false hwf, Bool.or_false]
     cases hs : ss[r]? with
-    | none => simp only [hR.get_none hs]; exact ⟨trivial, by simpa [hb] using hR⟩
+    | none => simp only [hR.get_none hs]; exact ⟨trivial, hR.same _ rfl (by simp)⟩
     | some m =>
       obtain ⟨a, ha, hma, hlt⟩ := hR.get_some hs
       simp only [ha, hlt, if_true, expect]
       refine ⟨by simp, ?_⟩
-      have := hR.set r (IDSet.addMany m ids) (ids ++ a) ?_
-      · simpa [hb] using this
+      refine hR.set r (IDSet.addMany m ids) (ids ++ a) ?_ _ rfl (by simp)
       · apply eq_canon _ _ (addMany_sorted _ _ (hma ▸ canon_sorted a))
         intro y
         rw [mem_addMany, hma, mem_canon, List.mem_append]
@@ -184,25 +186,24 @@ theorem stepS_sim (ss sp) (op : SOp) (hR : RS ss sp) (hwf : SOp.WF op) :
     simp only [SOp.WF] at hwf
     simp only [stepS, checkS, updS, hb, big_false hwf, Bool.or_false]
     cases hs : ss[r]? with
-    | none => simp only [hR.get_none hs]; exact ⟨trivial, by simpa [hb] using hR⟩
+    | none => simp only [hR.get_none hs]; exact ⟨trivial, hR.same _ rfl (by simp)⟩
     | some m =>
       obtain ⟨a, ha, hma, hlt⟩ := hR.get_some hs
       simp only [ha, hlt, if_true, expect]
       refine ⟨by simp, ?_⟩
-      have := hR.set r (IDSet.remove m id) (a.filter (· ≠ id)) ?_
-      · simpa [hb] using this
+      refine hR.set r (IDSet.remove m id) (a.filter (· ≠ id)) ?_ _ rfl (by simp)
       · rw [IDSet.remove, hma, norm_small hwf]
         exact filter_canon a _ _ (fun _ => rfl)
   | has r id =>
     simp only [SOp.WF] at hwf
     simp only [stepS, checkS, hb, big_false hwf, Bool.or_false]
     cases hs : ss[r]? with
-    | none => simp only [hR.get_none hs]; exact ⟨trivial, by simpa [hb] using hR⟩
+    | none => simp only [hR.get_none hs]; exact ⟨trivial, hR.same _ rfl (by simp)⟩
     | some m =>
       obtain ⟨a, ha, hma, hlt⟩ := hR.get_some hs
       simp only [ha, expect]
-      refine ⟨?_, by simpa [hb] using hR⟩
-      simp [IDSet.contains, hma, norm_small hwf, contains_canon]
+      refine ⟨?_, hR.same _ rfl (by simp)⟩
+      simp [IDSet.contains, hma, norm_small hwf, mem_canon]
   | card r =>
     simp only [stepS, checkS]
     cases hs : ss[r]? with
@@ -216,7 +217,7 @@ theorem stepS_sim (ss sp) (op : SOp) (hR : RS ss sp) (hwf : SOp.WF op) :
     cases hs : ss[r]? with
     | none =>
       simp only [hR.get_none hs]
-      exact ⟨by split <;> rfl, by split <;> exact hR⟩
+      exact ⟨trivial, hR⟩
     | some m =>
       obtain ⟨a, ha, hma, hlt⟩ := hR.get_some hs
       cases hos : others.mapM (fun o => ss[o]?) with
@@ -228,14 +229,14 @@ theorem stepS_sim (ss sp) (op : SOp) (hR : RS ss sp) (hwf : SOp.WF op) :
         · simp only [hc, if_true]; exact ⟨trivial, hR⟩
         · simp only [hc, updS, hlt, if_true, expect]
           refine ⟨by simp, ?_⟩
-          apply hR.set
+          refine hR.set _ _ _ ?_ _ rfl hb
           rw [hma, hrel]; exact merge_canon a osa
   | mergeIP r o =>
     simp only [stepS, checkS]
     cases hs : ss[r]? with
     | none =>
       simp only [hR.get_none hs]
-      exact ⟨by split <;> rfl, by split <;> exact hR⟩
+      exact ⟨trivial, hR⟩
     | some m =>
       obtain ⟨a, ha, hma, hlt⟩ := hR.get_some hs
       cases ho : ss[o]? with
@@ -244,7 +245,7 @@ theorem stepS_sim (ss sp) (op : SOp) (hR : RS ss sp) (hwf : SOp.WF op) :
         obtain ⟨b, hb', htb, _⟩ := hR.get_some ho
         simp only [ha, hb', updS, hlt, if_true, expect]
         refine ⟨by simp, ?_⟩
-        apply hR.set
+        refine hR.set _ _ _ ?_ _ rfl hb
         rw [hma, htb]
         apply eq_canon _ _ (union_sorted _ _ (canon_sorted a))
         intro y; simp [mem_union, mem_canon, or_comm]
@@ -253,7 +254,7 @@ theorem stepS_sim (ss sp) (op : SOp) (hR : RS ss sp) (hwf : SOp.WF op) :
     cases hs : ss[x]? with
     | none =>
       simp only [hR.get_none hs]
-      exact ⟨by split <;> rfl, by split <;> exact hR⟩
+      exact ⟨trivial, hR⟩
     | some m =>
       obtain ⟨a, ha, hma, hlt⟩ := hR.get_some hs
       cases ho : ss[y]? with
@@ -267,7 +268,7 @@ theorem stepS_sim (ss sp) (op : SOp) (hR : RS ss sp) (hwf : SOp.WF op) :
     cases hs : ss[x]? with
     | none =>
       simp only [hR.get_none hs]
-      exact ⟨by split <;> rfl, by split <;> exact hR⟩
+      exact ⟨trivial, hR⟩
     | some m =>
       obtain ⟨a, ha, hma, hlt⟩ := hR.get_some hs
       cases ho : ss[y]? with
@@ -278,7 +279,7 @@ theorem stepS_sim (ss sp) (op : SOp) (hR : RS ss sp) (hwf : SOp.WF op) :
         by_cases hd : dst < nReg
         · simp only [hd, if_true, expect]
           refine ⟨by simp, ?_⟩
-          apply hR.set
+          refine hR.set _ _ _ ?_ _ rfl hb
           rw [IDSet.and, hma, htb]
           exact filter_canon a _ _ (fun z => contains_canon b z)
         · simp only [hd, if_false]; exact ⟨trivial, hR⟩
@@ -287,7 +288,7 @@ theorem stepS_sim (ss sp) (op : SOp) (hR : RS ss sp) (hwf : SOp.WF op) :
     cases hs : ss[x]? with
     | none =>
       simp only [hR.get_none hs]
-      exact ⟨by split <;> rfl, by split <;> exact hR⟩
+      exact ⟨trivial, hR⟩
     | some m =>
       obtain ⟨a, ha, hma, hlt⟩ := hR.get_some hs
       cases ho : ss[y]? with
@@ -298,7 +299,7 @@ theorem stepS_sim (ss sp) (op : SOp) (hR : RS ss sp) (hwf : SOp.WF op) :
         by_cases hd : dst < nReg
         · simp only [hd, if_true, expect]
           refine ⟨by simp, ?_⟩
-          apply hR.set
+          refine hR.set _ _ _ ?_ _ rfl hb
           rw [IDSet.andNot, hma, htb]
           exact filter_canon a _ _ (fun z => by rw [contains_canon])
         · simp only [hd, if_false]; exact ⟨trivial, hR⟩
@@ -307,7 +308,7 @@ theorem stepS_sim (ss sp) (op : SOp) (hR : RS ss sp) (hwf : SOp.WF op) :
     cases hs : ss[r]? with
     | none =>
       simp only [hR.get_none hs]
-      exact ⟨by split <;> rfl, by split <;> exact hR⟩
+      exact ⟨trivial, hR⟩
     | some m =>
       obtain ⟨a, ha, hma, hlt⟩ := hR.get_some hs
       cases ho : ss[o]? with
@@ -319,7 +320,7 @@ theorem stepS_sim (ss sp) (op : SOp) (hR : RS ss sp) (hwf : SOp.WF op) :
         · simp only [hro, if_true]; exact ⟨trivial, hR⟩
         · simp only [hro, if_false, updS, hlt, if_true, expect]
           refine ⟨by simp, ?_⟩
-          apply hR.set
+          refine hR.set _ _ _ ?_ _ rfl hb
           rw [IDSet.andNot, hma, htb]
           exact filter_canon a _ _ (fun z => by rw [contains_canon])
   | inter x y =>
@@ -327,7 +328,7 @@ theorem stepS_sim (ss sp) (op : SOp) (hR : RS ss sp) (hwf : SOp.WF op) :
     cases hs : ss[x]? with
     | none =>
       simp only [hR.get_none hs]
-      exact ⟨by split <;> rfl, by split <;> exact hR⟩
+      exact ⟨trivial, hR⟩
     | some m =>
       obtain ⟨a, ha, hma, hlt⟩ := hR.get_some hs
       cases ho : ss[y]? with
@@ -349,7 +350,7 @@ theorem stepS_sim (ss sp) (op : SOp) (hR : RS ss sp) (hwf : SOp.WF op) :
       simp only [ha, updS]
       by_cases hd : dst < nReg
       · simp only [hd, if_true, expect]
-        exact ⟨by simp, hR.set _ _ _ hma⟩
+        exact ⟨by simp, hR.set _ _ _ hma _ rfl hb⟩
       · simp only [hd, if_false]; exact ⟨trivial, hR⟩
   | roundTrip src dst =>
     simp only [stepS, checkS]
@@ -360,7 +361,7 @@ theorem stepS_sim (ss sp) (op : SOp) (hR : RS ss sp) (hwf : SOp.WF op) :
       simp only [ha, updS]
       by_cases hd : dst < nReg
       · simp only [hd, if_true, expect]
-        exact ⟨by simp, hR.set _ _ _ hma⟩
+        exact ⟨by simp, hR.set _ _ _ hma _ rfl hb⟩
       · simp only [hd, if_false]; exact ⟨trivial, hR⟩
   | clear r =>
     simp only [stepS, checkS]
@@ -369,7 +370,7 @@ theorem stepS_sim (ss sp) (op : SOp) (hR : RS ss sp) (hwf : SOp.WF op) :
     | some m =>
       obtain ⟨a, ha, hma, hlt⟩ := hR.get_some hs
       simp only [ha, updS, hlt, if_true, expect]
-      exact ⟨by simp, hR.set _ _ _ (by simp [canon])⟩
+      exact ⟨by simp, hR.set _ _ _ (by simp [canon]) _ rfl hb⟩
   | slice r =>
     simp only [stepS, checkS]
     cases hs : ss[r]? with
